@@ -17,7 +17,7 @@ while true; do
       cp "$d/eval.txt" "$d/eval_own.txt"
       # the own check missed it: try the checks of the neighbouring properties
       case $id in
-        C01) others="C16 C06 C07 C17 C20 C10";; C02) others="C04 C18 C03";; C03) others="C04 C05 C07";; C04) others="C03 C05 C18 C02";;
+        C01) others="C14 C16 C06 C07 C17 C20 C10";; C02) others="C04 C18 C03";; C03) others="C04 C05 C07";; C04) others="C03 C05 C18 C02";;
         C05) others="C03 C06 C20 C15";; C06) others="C01 C07 C05";; C07) others="C03 C08 C11 C01";; C08) others="C01 C07 C17";;
         C09) others="C12 C01";; C10) others="C01 C06 C17";; C11) others="C12 C16 C01";; C12) others="C11 C09";;
         C13) others="C03 C18 C14";; C14) others="C13 C03 C15";; C15) others="C19 C20 C05";; C16) others="C01 C11 C08";;
